@@ -44,6 +44,13 @@ def hop(fmt, cs, trail, pool=None):
         wo, ro = pool[fmt]
     else:
         wo, ro = w(), r()
+    if pool is not None and pool.get("__converter__"):
+        # the documented CaptionConverter front end instead of calling reader / writer directly
+        from pycaption import CaptionConverter
+        with must(f"CaptionConverter.write({w.__name__}) ({' > '.join(trail)})"):
+            doc = CaptionConverter(cs).write(wo)
+        with must(f"CaptionConverter.read({r.__name__}) of own output ({' > '.join(trail)})"):
+            return CaptionConverter().read(doc, ro).captions, doc
     with must(f"{w.__name__}.write ({' > '.join(trail)})"):
         doc = wo.write(cs)
     with must(f"{r.__name__}.read of own output ({' > '.join(trail)})"):
@@ -157,13 +164,16 @@ def chains_strategy(tier):
     return st.fixed_dictionaries({
         "set": _set(),
         "chain": st.lists(st.sampled_from(FORMATS), min_size=3, max_size=6),
-        "pooled": st.booleans(),
+        "pooled": st.booleans(), "converter": st.booleans(),
     })
 
 
 def check_chain(case, rec):
     cs0 = model.to_pycaption(case["set"])
     pool = {} if case.get("pooled") else None
+    if pool is not None and case.get("converter"):
+        pool["__converter__"] = True
+        rec.label("caption-converter")
     run_chain(cs0, snap(cs0), case["chain"], True, passes=2, pool=pool)
     if pool is not None:
         rec.label("pooled-objects")
